@@ -260,6 +260,98 @@ def run(chk):
            "the ingress tests visibility instead of scope (hidden columns would be rejected) or nothing at all")  # fmt: skip
 
 
+def _binder_of(use, name, f):
+    """the innermost loop / comprehension around `use` that binds `name` -> its iterable, or None"""
+    p = parent(use)
+    child = use
+    while p is not None:
+        if isinstance(p, (ast.For, ast.AsyncFor)) and isinstance(p.target, ast.Name) and p.target.id == name and child is not p.iter and child is not p.target:
+            return p.iter
+        if isinstance(p, (ast.ListComp, ast.SetComp, ast.GeneratorExp, ast.DictComp)):
+            for i, g in enumerate(p.generators):
+                # (the iterable of the first generator is evaluated outside the comprehension's scope)
+                if isinstance(g.target, ast.Name) and g.target.id == name and not (i == 0 and child is g.iter):
+                    return g.iter
+        if p is f:
+            break
+        child, p = p, parent(p)
+    return None
+
+
+def _val_atoms(e, f, is_pp, seen):
+    """where a single value comes from: {"pp"} when it can only be a result of the ingress call"""
+    if is_pp(e):
+        return {"pp"}
+    if isinstance(e, ast.IfExp):
+        return _val_atoms(e.body, f, is_pp, seen) | _val_atoms(e.orelse, f, is_pp, seen)
+    if isinstance(e, ast.NamedExpr):
+        return _val_atoms(e.value, f, is_pp, seen)
+    if isinstance(e, ast.Name):
+        it = _binder_of(e, e.id, f)
+        if it is not None:
+            return _elem_atoms(it, f, is_pp, seen)
+        key = ("v", e.id)
+        if key in seen:
+            return set()
+        seen = seen | {key}
+        vals = [n.value for n in ast.walk(f) if isinstance(n, ast.Assign) and len(n.targets) == 1 and norm(n.targets[0]) == e.id]
+        vals += [n.value for n in ast.walk(f) if isinstance(n, ast.NamedExpr) and n.target.id == e.id]
+        if vals:
+            out = set()
+            for v in vals:
+                out |= _val_atoms(v, f, is_pp, seen)
+            return out
+        return {f"name:{e.id}"}
+    return {f"other:{norm(e)[:40]}"}
+
+
+def _elem_atoms(e, f, is_pp, seen):
+    """where the elements of an iterable come from"""
+    if isinstance(e, (ast.ListComp, ast.GeneratorExp, ast.SetComp)):
+        return _val_atoms(e.elt, f, is_pp, seen)
+    if isinstance(e, (ast.List, ast.Tuple, ast.Set)):
+        out = set()
+        for x in e.elts:
+            out |= _elem_atoms(x.value, f, is_pp, seen) if isinstance(x, ast.Starred) else _val_atoms(x, f, is_pp, seen)
+        return out
+    if isinstance(e, ast.Call) and dotted(e.func) in ("list", "tuple", "sorted", "reversed", "set", "iter", "dict.fromkeys") and len(e.args) >= 1:
+        return _elem_atoms(e.args[0], f, is_pp, seen)
+    if isinstance(e, ast.IfExp):
+        return _elem_atoms(e.body, f, is_pp, seen) | _elem_atoms(e.orelse, f, is_pp, seen)
+    if isinstance(e, ast.BinOp) and isinstance(e.op, ast.Add):
+        return _elem_atoms(e.left, f, is_pp, seen) | _elem_atoms(e.right, f, is_pp, seen)
+    if isinstance(e, ast.Name):
+        key = ("e", e.id)
+        if key in seen:
+            return set()
+        seen = seen | {key}
+        out = set()
+        found = False
+        for n in ast.walk(f):
+            if isinstance(n, (ast.Assign, ast.AnnAssign)):
+                tg = n.targets if isinstance(n, ast.Assign) else [n.target]
+                if len(tg) == 1 and norm(tg[0]) == e.id and n.value is not None:
+                    found = True
+                    out |= _elem_atoms(n.value, f, is_pp, seen)
+            elif isinstance(n, ast.AugAssign) and norm(n.target) == e.id and isinstance(n.op, ast.Add):
+                found = True
+                out |= _elem_atoms(n.value, f, is_pp, seen)
+            elif isinstance(n, ast.Call) and isinstance(n.func, ast.Attribute) and norm(n.func.value) == e.id and n.args:
+                if n.func.attr in ("append", "add"):
+                    found = True
+                    out |= _val_atoms(n.args[0], f, is_pp, seen)
+                elif n.func.attr in ("extend", "update"):
+                    found = True
+                    out |= _elem_atoms(n.args[0], f, is_pp, seen)
+                elif n.func.attr == "insert" and len(n.args) == 2:
+                    found = True
+                    out |= _val_atoms(n.args[1], f, is_pp, seen)
+        if not found:
+            return {f"name:{e.id}"}
+        return out
+    return {f"other:{norm(e)[:40]}"}
+
+
 def _provenance(arg, f, table, cname):
     """is the constructor argument built only from preprocess_arg(x, table) results?"""
 
@@ -304,11 +396,8 @@ def _provenance(arg, f, table, cname):
                 for lp in ast.walk(f)
             )
             return processed and checked, "join condition pipeline"
-        inits = [a for a in assigns if isinstance(a.value, ast.List) and not a.value.elts]
-        other = [a for a in assigns if a not in inits]
-        if inits and not other and appends and all(c.args and is_pp(c.args[0]) for c in appends):
+        atoms = _elem_atoms(arg, f, is_pp, set())
+        if atoms == {"pp"}:
             return True, ""
-        if other and all(isinstance(a.value, (ast.ListComp, ast.GeneratorExp)) and is_pp(a.value.elt) for a in other) and not appends:
-            return True, ""
-        return False, f"`{name}` is assigned / extended from other sources"
+        return False, f"`{name}` is assigned / extended from other sources ({sorted(a for a in atoms if a != 'pp')[:3]})"
     return False, "unrecognised argument form"
